@@ -975,8 +975,20 @@ def rule_k18(repo, rid='C01.K18'):
                                                                  'without a test that the index is below the number of binders'), '%s:%d' % (TERM, sub.lineno))
     return res
 
+def rule_k19(repo):
+    """The checker compares what a rule derived with what the line states through `Thm.can_prove` (C02.P3).  For this property: the derived
+    hypotheses have to be *among* the stated ones - a test by counting is equivalent only for lists without repetition, and a stated
+    sequent with a repeated hypothesis then hides a hypothesis of the derived one: |- false in five steps."""
+    from .c02 import rule_p3
+    r = rule_p3(repo)
+    res = RuleResult('C01.K19', 'a stated sequent is accepted for a derived one only if the derived hypotheses are among the stated ones', floor=1)
+    for i in r.instances:
+        if 'can_prove' in i.key:
+            res.add(i.key, i.ok, i.detail, i.loc)
+    return res
+
 
 def rules(repo):
     return [rule_k1(repo), rule_k2(repo), rule_k3(repo), rule_k4(repo), rule_k5(repo), rule_k6(repo),
             rule_k8(repo), rule_k9(repo), rule_k10(repo), rule_k11(repo), rule_k12(repo), rule_k13(repo), rule_k14(repo), rule_k15(repo), rule_k16(repo),
-            rule_k17(repo), rule_k18(repo)]
+            rule_k17(repo), rule_k18(repo), rule_k19(repo)]
